@@ -423,6 +423,7 @@ func buildMaterial1(r *run.Rng, idx int, shape string, T0 uint32, selfIdx int) (
 		mat.Yield[sitePut] = r.Range(1000, 5000)
 		mat.Yield[sitePutB] = r.Range(1000, 5000)
 		mat.Yield[siteBatch] = r.Range(500, 3000)
+		mat.Yield[siteWB] = r.Range(500, 3000) // a slow disk: several writes of one key are pending at a time
 	}
 	if nMine > 0 && r.Chance(1, 2) {
 		// a transaction for the miner: the founder (reward manager) calls the reward precompile
